@@ -1407,6 +1407,44 @@ def m_rev(c):
     return None
 
 
+@model(r"^std::iter::Iterator::zip$")
+def m_zip(c):
+    """zip of two slice / array iterators whose lengths are known constants: it yields exactly min(n1, n2) items; kept as ghost
+    counter fields start = 0, end = min (as for Take), exact in both directions"""
+    d = c.dest_place()
+    if d is None or len(c.args) < 2:
+        return ("iter", "other")
+
+    def length(i):
+        v = c.args[i][0]
+        if v[0] == "iter" and v[1] == "slice" and v[2] is not None:
+            return v[2]
+        try:
+            return c.len_of(i)
+        except Exception:
+            return None
+    n1, n2 = length(0), length(1)
+    i1 = c.st.val_iv(n1) if n1 is not None and n1[0] in ("n", "iv") else (None, None)
+    i2 = c.st.val_iv(n2) if n2 is not None and n2[0] in ("n", "iv") else (None, None)
+    if i1[0] is None or i1[0] != i1[1] or i2[0] is None or i2[0] != i2[1]:
+        return ("iter", "other")
+    # only for iterators that have not been advanced: unnamed temporaries handed over as they were created
+    for op in c.t["args"][:2]:
+        pj = op.get("move") or op.get("copy")
+        if pj is None or pj.get("p") or c.an.b.lname(pj["l"]) or len(c.an.b.defs.get(pj["l"], [])) != 1:
+            return ("iter", "other")
+    c.st.kill(d, whole_local=not d[1])
+    c.st.set_iv(("v", d[0], d[1] + ("start",)), 0, 0)
+    c.st.sym[(d[0], d[1] + ("start",))] = ("n", None, 0)
+    c.st.sym[(d[0], d[1] + ("end",))] = ("n", None, min(i1[0], i2[0]))
+    return "stored"
+
+
+@model(r"^<std::iter::Zip<A, B> as std::iter::Iterator>::next$")
+def m_zip_next(c):
+    return _range_next(c, True, False, counter=True, exact=True)
+
+
 @model(r"^std::iter::Iterator::(skip|zip|map|filter|chain|peekable|flatten|flat_map|copied|cloned|take_while|skip_while|filter_map|inspect|fuse|cycle|scan|map_while)$")
 def m_adaptor(c):
     v = c.args[0][0]
@@ -1415,7 +1453,7 @@ def m_adaptor(c):
     return ("iter", "other")
 
 
-def _range_next(c, fwd, incl, counter=False):
+def _range_next(c, fwd, incl, counter=False, exact=False, inner=False):
     """counter=True: the iterator is not a range but something that counts its own steps in ghost fields `start` (steps taken) and
     `end` (the most it may take) - std::iter::Take: the yielded item is unknown, exhaustion of the inner iterator may end it early"""
     st = c.st
@@ -1423,7 +1461,7 @@ def _range_next(c, fwd, incl, counter=False):
     d = c.dest_place()
     if pl is None or d is None:
         return None
-    if not fwd:
+    if not fwd or inner:
         pl = (pl[0], pl[1] + ("iter",))
     S = ("v", pl[0], pl[1] + ("start",))
     E = ("v", pl[0], pl[1] + ("end",))
@@ -1476,7 +1514,7 @@ def _range_next(c, fwd, incl, counter=False):
             hi_new = si[1] + 1 if hi_end is None else min(si[1] + 1, max(si[1], hi_end + 1))
         st.set_iv(S, si[0], hi_new)
         S_val = ("n", S, 0)
-        none_facts = [(e_val, S_val, 0)] if not (incl or counter) else []
+        none_facts = [(e_val, S_val, 0)] if not (incl or (counter and not exact)) else []
         facts.append((pv, S_val, -1))
         facts.append((S_val, pv, 1))
         if old_alias is not None:
@@ -1602,6 +1640,9 @@ def m_rev_next(c):
             return _range_next(c, False, False)
         if "RangeInclusive<" in s:
             return _range_next(c, False, True)
+        if s.startswith("std::iter::Zip<"):
+            # the same number of items, from the other end: for the count it is the same walk
+            return _range_next(c, True, False, counter=True, exact=True, inner=True)
     return None
 
 
